@@ -13,7 +13,8 @@ ID = "C06"
 RULE = ("page: collection tables of 0-200 rows with timestamp ties of every multiplicity (including runs longer "
         "than 3x the page size), page sizes 1..n+1 / 0 (server maximum) / server-side caps, schedules of "
         "modify/add/delete applied between page requests (fresh-now, merely per-collection-monotone, and hostile "
-        "additions with old timestamps), injected request and callback failures; idx/gidx: every cut point of "
+        "additions with old timestamps), injected request and callback failures, plus small-scope interleavings "
+        "(3-6 rows, page size 1-3, ordered pairs/triples of add/modify/delete in one or two successive gaps); idx/gidx: every cut point of "
         "generated well-formed index responses plus malformed streams (blank lines, CR, bad fields, mtime syntax "
         "and range, 64KiB lines, non-200 status, dropped connections); prod: volume outputs with failures; run: "
         "Balancer.Run with a failure of each kind at every single request. Non-trivial = page case with >= 2 rows, "
@@ -119,8 +120,8 @@ def _gen_page(rng, big):
         nev = rng.choice([1, 1, 2, 3, 5, 8]) if n else rng.choice([1, 2])
     fresh_uuid = 10 ** 14 + 7
     live = set(uuids)
-    for _ in range(nev):
-        k = rng.randint(0, max(1, min(est, 40)))
+    # gaps in chronological order, so that the clock and each row's modified_at move forward
+    for k in sorted(rng.randint(0, max(1, min(est, 40))) for _ in range(nev)):
         ops = sched.setdefault(k, [])
         for _ in range(rng.choice([1, 1, 2, 3])):
             o = rng.random()
@@ -162,6 +163,58 @@ def _gen_page(rng, big):
         cbf = str(rng.randint(0, n + 1))
     pop = ",".join(f"{u}:{t}" for u, t in zip(uuids, times)) or "-"
     return f"page {ps} {cap} {pop} {sch} {fail} {cbf}"
+
+
+def _gen_pairs(rng):
+    """Small-scope interleavings: a table of 3-6 rows, page size 1-3, and an ordered pair (sometimes a
+    triple) of concurrent operations injected into one gap or two successive gaps between page
+    requests - add (fresh or old timestamp), modify (any row, delivered or not, to a fresh 'now'),
+    delete. Orders such as 'extra callback first, then a not yet delivered row moves to the end'
+    only show with at least two operations in the right order."""
+    n = rng.randint(3, 6)
+    uuids = rng.sample(range(1, 60), n)
+    shape = rng.randrange(4)
+    if shape == 0:
+        times = list(range(1, n + 1))
+    elif shape == 1:
+        times = [2] * n
+    elif shape == 2:
+        times = [1 + i // 2 for i in range(n)]
+    else:
+        times = [rng.randint(1, 3) for _ in range(n)]
+    rng.shuffle(times)
+    rows = dict(zip(uuids, times))
+    live = set(uuids)
+    now = max(times) + 1
+    ps = rng.choice([1, 1, 2, 3])
+    k1 = rng.randint(1, n + 3)
+    k2 = k1 if rng.random() < 0.6 else k1 + rng.randint(1, 2)
+    sched = {}
+    for k in [k1, k2] + ([k2] if rng.random() < 0.25 else []):
+        o = rng.randrange(5)
+        if o <= 1 and live:
+            u = rng.choice(sorted(live))
+            now += 1
+            rows[u] = now
+            sched.setdefault(k, []).append(f"m{u}:{now}")
+        elif o == 2:
+            u = rng.choice([x for x in range(1, 70) if x not in rows])
+            now += 1
+            rows[u] = now
+            live.add(u)
+            sched.setdefault(k, []).append(f"a{u}:{now}")
+        elif o == 3:
+            u = rng.choice([x for x in range(1, 70) if x not in rows])
+            rows[u] = rng.randint(1, now)
+            live.add(u)
+            sched.setdefault(k, []).append(f"a{u}:{rows[u]}")
+        elif live:
+            u = rng.choice(sorted(live))
+            live.discard(u)
+            sched.setdefault(k, []).append(f"d{u}")
+    sch = ";".join(f"{k}:{','.join(v)}" for k, v in sorted(sched.items())) or "-"
+    pop = ",".join(f"{u}:{t}" for u, t in zip(uuids, times))
+    return f"page {ps} 0 {pop} {sch} - -"
 
 
 HEX = "0123456789abcdef"
@@ -251,6 +304,8 @@ def generate(rng, tier):
     # (a) paging
     for _ in range(700 if not big else 12000):
         cases.append(_gen_page(rng, big))
+    for _ in range(200 if not big else 3000):
+        cases.append(_gen_pairs(rng))
     # (b) index readers: every cut point of well-formed responses
     for i in range(14 if not big else 120):
         short = not (i % 5 == 0)
